@@ -1,6 +1,7 @@
 import NA.Proofs.C19Calm3
 import NA.Proofs.C19Race
 import NA.Gen.NewPolicy
+import Lean.Elab.Command
 /-!
 # C19 — the policy database always points to a complete, compiled policy
 
@@ -20,6 +21,11 @@ namespace NA.C19
 open NA.Gen.NewPolicy
 
 /-! ### The regenerated script passes the static checks -/
+
+-- if shgen did not understand the script: its reason, as the first line of the build error (what
+-- fails is the theorem `script_understood` below)
+open Lean Elab Command in
+run_cmd if !understood then logError m!"shgen did not understand bin/newpolicy.sh — {problem}"
 
 /-- shgen understood every command, variable and construct of the script: `prog` IS its translation
 (otherwise `prog` is the last program shgen understood, kept only so that the harness can still
